@@ -78,6 +78,13 @@ class Recorder:
         self.max_ops = max_ops
         self.retvars = {}
 
+    def log_op(self, it, op, target, arg=None):
+        if len(self.ops) >= self.max_ops:
+            raise StepLimit("visible-op bound")
+        r = self.fresh(it, op)
+        self.ops.append({"op": op, "target": target, "arg": arg, "ret": r, "ret2": None, "pc_index": len(it.ctx.pc)})
+        return r
+
     def fresh(self, it, what, w=64):
         v = z3.BitVec(f"{what}#{len(self.ops)}", w)
         return v
@@ -216,9 +223,21 @@ def make_extern(rec: Recorder, setup=False):
             fut = _name_of(args[0])
             if isinstance(fut, Agg) and fut.ty == "{future}":
                 op, chn, arg = fut.f
+                if op == "mutex_lock_await":
+                    # acquiring an async mutex: one blocking visible operation; the guard's drop releases it
+                    log(it, "mutex_lock", chn, None)
+                    return Enum("std::task::Poll", 0, "Ready", [Agg("{async_guard}", [chn])])
                 r = log(it, op, chn, arg)
                 if op == "notify_await":
                     return Enum("std::task::Poll", 0, "Ready", [UNIT])
+                if op == "env_call":
+                    c = it.ctx.switch(r, [OK, CLOSED])
+                    if c == OK:
+                        return Enum("std::task::Poll", 0, "Ready", [ok(UNIT)])
+                    if c == CLOSED:
+                        ev = it.prog.enum_variants("error::ZmqError")
+                        return Enum("std::task::Poll", 0, "Ready", [err(Enum("error::ZmqError", ev.index("ConnectionClosed"), "ConnectionClosed", []))])
+                    raise PathAbort("result domain")
                 if op == "ready_recv_await":
                     c = it.ctx.switch(r, dom(OK, CLOSED))
                     if c == OK:
@@ -338,9 +357,12 @@ def extract_call(prog, setup_fn, call_fn, name, max_ops=24, max_paths=400, allow
         world = World()
         rec0 = Recorder(world, max_ops=10 ** 6)
         it.extern = make_extern(rec0, setup=True)
+        it._world = world
+        it._rec_holder = [rec0]
         state = setup_fn(it)
         n_setup = len(ctx.trace)
         rec = Recorder(world, max_ops=max_ops, allow_closed=allow_closed)
+        it._rec_holder[0] = rec
         it.extern = make_extern(rec)
         truncated, outcome, note = False, None, ""
         try:
